@@ -45,6 +45,11 @@ Definition p_active (st : pool) : N := (p_pending st + p_streams st)%N.
 
 Record pcfg := { c_timeout : Z; c_min : N }.
 
+(* set_seq precedes add_idle_session in both copies of create_new_session (real path, hook path); if it did not,
+   add_idle_session would read the session's initial seq as the map key *)
+Definition client_seq_before_add : bool :=
+  client_seq_set_before_add_real && client_seq_set_before_add_hook.
+
 Definition pupd {A} (f : nat -> A) (k : nat) (v : A) : nat -> A :=
   fun j => if Nat.eqb j k then v else f j.
 
@@ -177,7 +182,9 @@ Definition pool_step (c : pcfg) (now : Z) (st : pool) (o : poolop) : pool * pool
       ({| p_n := S sid; p_closed := closed'; p_seq := pupd (p_seq st) sid seq;
           p_tbl := pupd (p_tbl st) sid 1%N; p_busy := pupd (p_busy st) sid 1%N;
           p_idle := if client_adds_new_session_to_idle
-                    then pool_add_idle closed' seq sid now (p_idle st) else p_idle st;
+                    then pool_add_idle closed' (if client_seq_before_add then seq else session_initial_seq)
+                                       sid now (p_idle st)
+                    else p_idle st;
           p_nextseq := (seq + 1)%N; p_dials := p_dials st;
           p_pending := (p_pending st - 1)%N; p_streams := (p_streams st + 1)%N; p_peak := p_peak st;
           p_hits := p_hits st |}, QNew sid)
